@@ -196,6 +196,18 @@ class SetOf(ArrayType):
                                     Tag.SET,
                                     element_type)
 
+    def encode_content(self, data, values=None):
+        encoded_elements = []
+
+        for entry in data:
+            encoded_element = bytearray()
+            self.element_type.encode(entry, encoded_element)
+            encoded_elements.append(encoded_element)
+
+        # The encodings of the component values appear in ascending
+        # order.
+        return bytearray().join(sorted(encoded_elements))
+
 
 class UTF8String(StringType):
 
